@@ -128,6 +128,7 @@ CHECKS = {
 NOT_APPLICABLE = {
  "C24": "pure function of its input (handle codec round-trip, block-layout arithmetic): no schedule, clock, I/O or fault can change the answer; not a simulation target",
  "C29": "comparator axioms over value triples are a pure function of the inputs; not a simulation target",
+ "C30": "the JSON map-key comparers are in-memory functions of two keys (and, for history independence, of the order of earlier calls on one comparer object): no task, clock, I/O or fault takes part, so there is nothing a scheduler or fault plan could vary; not a simulation target",
  "C34": "Authorize/CheckPolicy/ResolveRBACMap are pure decision functions over a finite domain; not a simulation target",
  "C36": "data races are decided by the race detector observing real uncontrolled executions (runtime monitoring); the simulator serialises tasks through channel hand-offs, which are happens-before edges, so it is blind to races by construction",
 }
